@@ -31,6 +31,18 @@ func resultType(sig *types.Signature) types.Type {
 }
 
 func (tr *FnTrans) callWith(c *ssa.CallCommon, site ssa.Instruction, pos token.Pos, args []Val) Val {
+	savedGhost := tr.pendingGhost
+	tr.pendingGhost = nil
+	r := tr.callWith0(c, site, pos, args)
+	items := tr.pendingGhost
+	tr.pendingGhost = savedGhost
+	if len(items) > 0 {
+		tr.afterCall(items)
+	}
+	return r
+}
+
+func (tr *FnTrans) callWith0(c *ssa.CallCommon, site ssa.Instruction, pos token.Pos, args []Val) Val {
 	vc := tr.vc
 	prevCall := tr.curCall
 	tr.curCall = c
@@ -103,6 +115,9 @@ func (tr *FnTrans) callWith(c *ssa.CallCommon, site ssa.Instruction, pos token.P
 	}
 	fc := tr.w.contractFor(callee)
 	if fc == nil {
+		if tr.inlinable(callee) {
+			return tr.inlineCall(callee, args)
+		}
 		if tr.w.inRepo(callee) {
 			return tr.unknownCall(name, sig, true)
 		}
